@@ -98,6 +98,29 @@ theorem build_comm (parse : Str → Option Rat) (xs ys : List Val)
   unfold build
   rw [hp, he, hl, hs, hmn, hmx]
 
+/-- … read as numbers it commutes without any guard -/
+theorem build_comm_view (parse : Str → Option Rat) (xs ys : List Val) :
+    oview (build parse (xs ++ ys)) = oview (build parse (ys ++ xs)) := by
+  have hs : (sumCell (nums parse (xs ++ ys))).toRat = (sumCell (nums parse (ys ++ xs))).toRat := by
+    rw [sumCell_toRat, sumCell_toRat, nums_append, nums_append, ratSum_append, ratSum_append, Rat.add_comm]
+  have hl : (nums parse (xs ++ ys)).length = (nums parse (ys ++ xs)).length := by
+    simp [nums_append, Nat.add_comm]
+  have he : (nums parse (xs ++ ys)).isEmpty = (nums parse (ys ++ xs)).isEmpty := by
+    rw [nums_append, nums_append]
+    cases nums parse xs <;> cases nums parse ys <;> rfl
+  have hp : present (xs ++ ys) = present (ys ++ xs) := by rw [present_append, present_append, Nat.add_comm]
+  have hmn : minCell parse (xs ++ ys) = minCell parse (ys ++ xs) := by
+    rw [minCell_append, minCell_append]
+    exact cvMin_comm _ _ (minCell_notBackfill parse xs) (minCell_notBackfill parse ys)
+  have hmx : maxCell parse (xs ++ ys) = maxCell parse (ys ++ xs) := by
+    rw [maxCell_append, maxCell_append]
+    exact cvMax_comm _ _ (maxCell_notBackfill parse xs) (maxCell_notBackfill parse ys)
+  unfold build oview
+  rw [hp, he, hmn, hmx]
+  by_cases h0 : present (ys ++ xs) = 0
+  · simp [h0]
+  · by_cases hem : (nums parse (ys ++ xs)).isEmpty <;> simp [h0, hem, SegStats.view, NumStats.view, hl, hs]
+
 /-! ### several parts -/
 
 /-- left-to-right merge of the statistics of the parts (what StatsResults.MergeSegStats does batch after batch) -/
